@@ -324,6 +324,15 @@ def canon_trace(tr):
         if l.startswith('PANIC') or l.startswith('ABORT') or l.startswith('HANG'):
             m = re.match(r'PANIC tick=(\d+)', l)
             out.append('CRASH' + (' tick=' + m.group(1) if m else ''))
+        elif l.startswith('DM@'):
+            # a saved dynamic macro: the releases appended for keys still down come out of a hash set in the Rust
+            # ("in no particular order"): the trailing run of `R<key>,0` items is compared as a set
+            head, _, items = l.rstrip().partition(' : ')
+            items = items.split()
+            i = len(items)
+            while i > 0 and re.fullmatch(r'R\d+,0', items[i - 1]):
+                i -= 1
+            out.append(head + ' : ' + ' '.join(items[:i] + sorted(items[i:])))
         else:
             out.append(l.rstrip())
     return out
